@@ -1499,4 +1499,34 @@ def rule_R4n(ctx, rep, config="c-lib"):
             else:
                 rep.violation("R4n", key, "%s adds a node's cost and another cost in int without an overflow test: the total cost of a translation can exceed INT_MAX "
                               "(signed overflow, a negative or wrapped total decides which alternatives are `minimal')" % f.name, where=a_.where(), witness=[a_.where()])
+    # the visit mark -cost - 1 of a cost INT_MAX is INT_MIN: the mark is not negated as it stands (only where the value is known to be >= 0)
+    m_ = 0
+    for f in p.m.defined():
+        if f.module and not f.module.startswith("yaep."):
+            continue
+        for a_ in f.all_insts():
+            if a_.op != "sub" or a_.ty != "i32" or not a_.d.get("nsw") or const_int(a_.ops[0]) != 0:
+                continue
+            l_ = f.inst(strip_int_casts(f, a_.ops[1]))
+            if l_ is None or l_.op != "load" or not (resolve_addr(f, l_.ops[0]).last_field() or "").endswith("anode.cost"):
+                continue
+            m_ += 1
+            rep.cover(p, [f.name])
+            key = "%s/cost-negated#%d" % (f.name, m_)
+            nonneg = False
+            for (cc, pol) in _controlling_conditions(f, a_.block.name):
+                v = f.inst(strip_int_casts(f, cc.ops[0]))
+                if v is None or v.op != "load" or not (resolve_addr(f, v.ops[0]).last_field() or "").endswith("anode.cost"):
+                    continue
+                k = const_int(cc.ops[1])
+                pr = cc.d["pred"]
+                if not pol:
+                    pr = {"slt": "sge", "sge": "slt", "sle": "sgt", "sgt": "sle"}.get(pr, pr)
+                if (pr, k) in (("sge", 0), ("sgt", -1)):
+                    nonneg = True
+            if nonneg:
+                rep.ok("R4n", key, sample={"negation": a_.where()})
+            else:
+                rep.violation("R4n", key, "%s negates the cost member as it stands where it may hold the visit mark of a cost INT_MAX (INT_MIN): -INT_MIN overflows -- "
+                              "decode the mark as -(mark + 1)" % f.name, where=a_.where(), witness=[a_.where()])
     rep.floor("R4n", "sums of abstract node costs", n, 1)
